@@ -4,7 +4,10 @@
 import json, os, re, shutil, subprocess, sys, glob, concurrent.futures as cf
 
 ENV = dict(os.environ, GOFLAGS="-mod=mod", GOPROXY="off", GOSUMDB="off", GOTOOLCHAIN="local")
-SCRATCH = "/tmp/sv"
+SCRATCH = os.environ.get("SEED_SCRATCH", "/tmp/sv")
+REPO = os.environ.get("SEED_REPO", "/repo")
+BIN = os.environ.get("SEED_BIN", "/verif/bin/biocheck")
+TAG = os.environ.get("SEED_TAG", "sv")
 PKGDIR = {"fasta": "formats/fasta", "fastq": "formats/fastq", "sam": "formats/sam", "bed": "formats/bed", "newick": "formats/newick",
           "smtext": "formats/smtext", "align": "align", "sequtil": "sequtil", "trie": "trie", "regions": "regions", "mash": "mash"}
 PROPS = [l and json.loads(l)["id"] for l in open("/verif/properties.jsonl")]
@@ -64,20 +67,20 @@ def main():
         confirmed = suite_ok and rc_with != 0 and rc_without == 0
         # run every quick check against the patch applied to /repo
         caught = {}
-        rc, out = sh(f"git -C /repo apply {patch}")
+        rc, out = sh(f"git -C {REPO} apply {patch}")
         if rc == 0:
             def one(p):
-                r, o = sh(f"/verif/bin/biocheck -property {p} -tier quick -dir /repo -verif /tmp/sv-verif-{p}")
+                r, o = sh(f"{BIN} -property {p} -tier quick -dir {REPO} -verif /tmp/{TAG}-verif-{p}")
                 rules = sorted(set(re.findall(r"^\s+(?:violated|undecided) ([A-Za-z0-9<>=\-]+)/", o, re.M)))
                 return p, r, rules
             for p in CLAIMED:
-                os.makedirs(f"/tmp/sv-verif-{p}/evidence", exist_ok=True)
-                shutil.copy("/verif/KNOWN_FINDINGS.txt", f"/tmp/sv-verif-{p}/KNOWN_FINDINGS.txt")
+                os.makedirs(f"/tmp/{TAG}-verif-{p}/evidence", exist_ok=True)
+                shutil.copy("/verif/KNOWN_FINDINGS.txt", f"/tmp/{TAG}-verif-{p}/KNOWN_FINDINGS.txt")
             with cf.ThreadPoolExecutor(max_workers=12) as ex:
                 for p, r, rules in ex.map(one, CLAIMED):
                     if r != 0:
                         caught[p] = rules
-            sh("git -C /repo checkout -- . && git -C /repo clean -fdq")
+            sh(f"git -C {REPO} checkout -- . && git -C {REPO} clean -fdq")
         own = prop in caught
         print(f"{sid}: suite_passes={suite_ok} demo_fails_with={rc_with != 0} demo_passes_without={rc_without == 0} confirmed={confirmed} caught_by_own={own} caught={caught}")
         results.append(dict(id=sid, property=prop, confirmed=confirmed, suite_ok=suite_ok, demo_with=rc_with, demo_without=rc_without, caught=caught, pkgdir=pdir, tests=tests, dir=d))
